@@ -290,7 +290,9 @@ class Run:
                            (["--init=IndInit", "--inv=IndInv", "--length=1"], "IndInv /\\ Next => IndInv'")):
             t0 = time.time()
             try:
+                os.makedirs(out, exist_ok=True)
                 r = subprocess.run(["apalache-mc", "check"] + args + ["--out-dir=" + out, "CursorGeom.tla"], cwd=SPEC,
+                                   env=dict(os.environ, TMPDIR=out, JAVA_IO_TMPDIR=out),
                                    stdout=subprocess.PIPE, stderr=subprocess.STDOUT, text=True, timeout=900)
             except subprocess.TimeoutExpired:
                 raise ToolError("apalache-mc timed out")
